@@ -359,6 +359,12 @@ def fits(q, digits, expmin=None):
 
 # ---------------------------------------------------------------- worker: run fpy2 and check the property directly
 _W = {}
+_ARGSETS = []      # operand lists, registered before the worker pool forks (shared copy-on-write)
+
+
+def reg_args(argl):
+    _ARGSETS.append(argl)
+    return len(_ARGSETS) - 1
 
 
 def _winit():
@@ -452,13 +458,19 @@ def direct_check(fname, desc, args, out):
 
 
 def _work(job):
-    """job = (desc, fname, list of argument tuples).  Returns [(args, outcome, verdict)]."""
-    desc, fname, argl = job
+    """job = (desc, fname, id of an operand list registered in _ARGSETS before the fork,
+    slice bounds, index of the first case, Coq stride).  Returns a summary: counts, hashes of the non-trivial cases, failures by outcome
+    class (count + a few examples), and the cases selected for the Coq comparison
+    (every `stride`-th case by global index and the first two of every
+    (verdict, outcome) class of this job)."""
+    desc, fname, sid, lo, hi, base, stride = job
+    argl = _ARGSETS[sid][lo:hi]
     ctx = make_ctx(desc)
     eft, core = _W['eft'], _W['core']
     fn = core.ldexp if fname == 'ldexp' else getattr(eft, fname)
-    res = []
-    for args in argl:
+    counts, nontriv, fails, terms, nar, seen = {}, [], {}, [], [], {}
+    fct = fc_term(desc)
+    for i, args in enumerate(argl):
         fl = [_mkfloat(a) for a in args]
         out = _outcome(lambda: fn(*fl, ctx=ctx))
         verdict = direct_check(fname, desc, args, out)
@@ -469,8 +481,26 @@ def _work(job):
             once = ctx.round(_W['Float'](s=x[0], exp=x[1] + k, c=x[2]))
             if once.isnan or once.isinf or frac((once.s, once.exp, once.c)) != frac(out[1][0]):
                 verdict = 'ldexp: not the exact product rounded once'
-        res.append((args, out, verdict))
-    return res
+        vc = verdict if verdict in ('ok', 'na') else 'FAIL'
+        counts[vc] = counts.get(vc, 0) + 1
+        if verdict == 'ok' and out[0] == 'ok' and any(v[2] for v in out[1][1:]):
+            nontriv.append(hash((fname, desc, args)))      # a non-zero error term that the property constrains
+        ocls = (out[0], out[2] if out[0] == 'err' else None)
+        if vc == 'FAIL':
+            f = fails.setdefault(ocls, [0, []])
+            f[0] += 1
+            if len(f[1]) < 5:
+                f[1].append((args, out, verdict))
+        t = out_term(out)
+        if t is None:
+            nar.append((args, out))
+            continue
+        cls = (vc, ocls)
+        seen[cls] = seen.get(cls, 0) + 1
+        if (base + i) % stride == 0 or seen[cls] <= 2:
+            a = '; '.join(rf_term(*x) for x in args)
+            terms.append((f'(KEft {fct} "{fname}" [{a}], {t})', args, out))
+    return {'n': len(argl), 'counts': counts, 'nontriv': nontriv, 'fails': fails, 'terms': terms, 'nar': nar}
 
 
 def out_term(out):
@@ -482,7 +512,7 @@ def out_term(out):
 
 
 
-def coq_eval_z(ck, header, case_type, cases, check_fn, chunk=3000, timeout=900, jobs=16, tag='c20'):
+def coq_eval_z(ck, header, case_type, cases, check_fn, chunk=3000, timeout=3000, jobs=16, tag='c20'):
     """Like Check.coq_eval_mismatches, but case indices are Z (binary) instead of
     nat (unary): with > 10^5 cases unary literals dominate the elaboration time."""
     import re
@@ -502,6 +532,10 @@ def coq_eval_z(ck, header, case_type, cases, check_fn, chunk=3000, timeout=900, 
         return [], None
     cmd = (f"xargs -P{jobs} -I{{}} sh -c 'timeout {timeout} coqc -Q {COQ} FpyV -Q . Dyn {{}}.v > {{}}.out 2>&1 || echo FAIL >> {{}}.out'")
     sh(cmd, cwd=ck.dir, input='\n'.join(shards), timeout=timeout * (len(shards) // jobs + 1) + 60)
+    # a shard that produced neither an answer nor a Coq error was killed (overloaded machine): once more, fewer at a time
+    again = [n for n in shards if 'Error' not in (ck.dir / f'{n}.out').read_text() and 'list Z' not in (ck.dir / f'{n}.out').read_text()]
+    if again:
+        sh(cmd.replace(f'-P{jobs}', '-P4'), cwd=ck.dir, input='\n'.join(again), timeout=timeout * (len(again) // 4 + 1) + 60)
     bad, err = [], None
     for name in shards:
         out = (ck.dir / f'{name}.out').read_text()
@@ -515,7 +549,86 @@ def coq_eval_z(ck, header, case_type, cases, check_fn, chunk=3000, timeout=900, 
     return sorted(bad), err
 
 
+# ---------------------------------------------------------------- reporting helper
+_SEEN = {}
+
+
+def report(ck, what, replay, key=None, cap=5):
+    """ck.violation, but at most `cap` replay files per kind of failure (known findings are only counted)."""
+    if key is not None and key in ck.known:
+        return ck.violation(what, replay, key=key)
+    _SEEN[what] = _SEEN.get(what, 0) + 1
+    if _SEEN[what] <= cap:
+        return ck.violation(what, replay, key=key)
+    ck.count('further failing inputs not written as replay files: ' + what)
+    return True
+
+
 # ---------------------------------------------------------------- the check
+def match_bodies(ck):
+    """(A) regenerate the library program from /repo and match every body against the
+    proved (or known-defective) bodies of coq/Lib/Eft.v.  Returns (have_lib, recognised)."""
+    recognised = {}     # fname -> (body name, key)
+    try:
+        text = export_library()
+    except ExportError as e:
+        ck.broken.append(f'exporter: {e}')
+        text = None
+    except Exception as e:  # noqa  (import failure etc.)
+        ck.broken.append(f'exporter crashed: {type(e).__name__}: {e}')
+        text = None
+    have_lib = False
+    if text is not None:
+        have_lib, out = ck.dyn_theory('GenLib', text=text, timeout=2400)
+    if have_lib:
+        hdr = ('From Coq Require Import ZArith List Bool String.\n'
+               'From FpyV Require Import Num.RealFloat Lib.Eft.\nFrom Dyn Require Import GenLib.\n'
+               'Open Scope string_scope.\n')
+        # step 1 (dispatch only, proves nothing): which recognised body does each regenerated body equal?
+        probe = hdr + ('Ltac probe n t := first [ assert t by (vm_compute; reflexivity); idtac "BODY-IS" n | idtac "BODY-ISNOT" n ].\n'
+                       'Goal True.\n')
+        for fname, cands in BODIES.items():
+            for body, _ in cands:
+                probe += f'  probe "{fname}:{body}" (lookup "{fname}" gen_lib = Ok {body}).\n'
+        probe += '  exact I.\nQed.\n'
+        def dyn_retry(name, text):
+            # a run that ends without success and without a Coq error was killed by the timeout
+            # (overloaded machine): try once more with twice the time
+            okx, outx = ck.coqc_dyn(name, text=text, timeout=1800)
+            if not okx and 'Error' not in outx:
+                okx, outx = ck.coqc_dyn(name, text=text, timeout=3600)
+            return okx, outx
+
+        okp, outp = dyn_retry('BodyProbe', probe)
+        import re as _re
+        isb = set(_re.findall(r'BODY-IS "([^"]+)"', outp))
+        if not okp:
+            ck.broken.append('body probe did not compile: ' + outp[-400:])
+        # step 2: the lemmas themselves (Leibniz equality, checked by the kernel)
+        lem = hdr
+        for fname, cands in BODIES.items():
+            hit = [(b, k) for (b, k) in cands if f'{fname}:{b}' in isb]
+            if hit:
+                recognised[fname] = hit[0]
+                lem += (f'Lemma gen_{fname}_is_{hit[0][0]} : lookup "{fname}" gen_lib = Ok {hit[0][0]}.\n'
+                        'Proof. vm_compute. reflexivity. Qed.\n')
+            elif okp:
+                ck.broken.append(f'body of {fname} in /repo matches no proved body (lookup "{fname}" gen_lib = Ok {cands[0][0]} fails): '
+                                 f'the C20 theorems no longer apply to it')
+        okl, outl = dyn_retry('BodyLemmas', lem)
+        ck.checker_cmds.append('coqc -Q coq FpyV -Q . Dyn build/C20/BodyLemmas.v')
+        ck.obligations += len(BODIES)       # one per library function: its body is the proved one
+        if okl:
+            ck.discharged += sum(1 for f, (b, k) in recognised.items() if k is None)
+        else:
+            ck.broken.append('body lemmas did not compile: ' + outl[-400:])
+            recognised.clear()
+        ck.extra['bodies'] = {k: v[0] for k, v in recognised.items()}
+        ck.log('bodies recognised as known-defective: ' + (', '.join(f'{k}={v[0]}' for k, v in recognised.items() if v[1]) or 'none'))
+
+    return have_lib, recognised
+
+
 def run(ck):
     thorough = ck.tier == 'thorough'
     ck.trusted += [
@@ -537,46 +650,7 @@ def run(ck):
         ck.props('Props/C20.v')
 
     # ---------------- (A) regenerate the library program and match bodies
-    recognised = {}     # fname -> (body name, key)
-    try:
-        text = export_library()
-    except ExportError as e:
-        ck.broken.append(f'exporter: {e}')
-        text = None
-    except Exception as e:  # noqa  (import failure etc.)
-        ck.broken.append(f'exporter crashed: {type(e).__name__}: {e}')
-        text = None
-    have_lib = False
-    if text is not None:
-        have_lib, out = ck.dyn_theory('GenLib', text=text)
-    if have_lib:
-        hdr = ('From Coq Require Import ZArith List Bool String.\n'
-               'From FpyV Require Import Num.RealFloat Lib.Eft.\nFrom Dyn Require Import GenLib.\n'
-               'Open Scope string_scope.\n')
-        from concurrent.futures import ThreadPoolExecutor
-
-        def lemma(fname, body, kind):
-            return ck.coqc_dyn(f'{kind}_{fname}', text=hdr + f'Lemma gen_{fname}_is_{body} : lookup "{fname}" gen_lib = Ok {body}.\n'
-                               'Proof. vm_compute. reflexivity. Qed.\n', timeout=300)[0]
-
-        with ThreadPoolExecutor(8) as tp:
-            futs = {(fname, i): tp.submit(lemma, fname, body, 'Body' if i == 0 else f'BodyAlt{i}')
-                    for fname, cands in BODIES.items() for i, (body, _) in enumerate(cands)}
-        for fname, cands in BODIES.items():
-            ck.obligations += 1
-            ck.checker_cmds.append(f'coqc -Q coq FpyV -Q . Dyn build/C20/Body_{fname}.v')
-            if futs[(fname, 0)].result():
-                ck.discharged += 1
-                recognised[fname] = (cands[0][0], None)
-                continue
-            hit = [c for i, c in enumerate(cands) if i and futs[(fname, i)].result()]
-            if hit:
-                recognised[fname] = hit[0]
-            else:
-                ck.broken.append(f'body of {fname} in /repo matches no proved body (lemma gen_{fname}_is_{cands[0][0]} fails): '
-                                 f'the C20 theorems no longer apply to it')
-        ck.extra['bodies'] = {k: v[0] for k, v in recognised.items()}
-        ck.log('bodies recognised as known-defective: ' + (', '.join(f'{k}={v[0]}' for k, v in recognised.items() if v[1]) or 'none'))
+    have_lib, recognised = match_bodies(ck)
 
     def key_for(fname, out, verdict):
         """Known-finding key for a failure of exactly a recognised defective body."""
@@ -625,13 +699,32 @@ def run(ck):
         else:
             ck.broken.append(f'Coq witness of classic_2fma_pinned_refuted does not reproduce on fpy2: {r}')
 
+    # ---------------- --replay FILE: re-run the single stored EFT case on the implementation
+    if ck.replay:
+        import json
+        rp = json.loads(open(ck.replay).read()).get('replay', {})
+        if 'function' in rp and 'args_encoded' in rp:
+            desc = tuple(rp['ctx'])
+            args = tuple(tuple(a) for a in rp['args_encoded'])
+            r = _work((desc, rp['function'], reg_args([args]), 0, 1, 0, 1))
+            ck.evaluations += 1
+            for ocls, (n, ex) in r['fails'].items():
+                a, out, verdict = ex[0]
+                ck.violation(f'property C20 violated by the implementation: {verdict}',
+                             {'function': rp['function'], 'ctx': desc, 'args': [str(frac(x)) for x in a],
+                              'args_encoded': a, 'got': out}, key=key_for(rp['function'], out, verdict))
+            ck.log(f'replayed {rp["function"]}{[str(frac(a)) for a in args]} under {desc}: {r["counts"]}')
+            return
+        ck.log('replay file has no re-runnable EFT case; running the full check')
+
     # ---------------- (B) correspondence: EFTs on all operand pairs / triples of small formats
     rng = Rng(ck.seed, 'c20')
     jobs = []
 
-    def add_jobs(desc, fname, argl, chunk=400):
-        for i in range(0, len(argl), chunk):
-            jobs.append((desc, fname, argl[i:i + chunk]))
+    def add_jobs(desc, fname, sid, chunk=400):
+        n = len(_ARGSETS[sid])
+        for i in range(0, n, chunk):
+            jobs.append((desc, fname, sid, i, min(n, i + chunk)))
 
     pair_fns_near = ['fast_2sum', 'classic_2sum', 'classic_2mul']
     pair_fns_any = ['ideal_2sum', 'priest_2sum', 'ideal_2mul', 'fast_2mul']
@@ -644,7 +737,10 @@ def run(ck):
         big = len(vals) > 60 and not thorough
         if big:
             bs = vals[rng.randrange(3)::3]
-        pairs = [(a, b) for a in vals for b in (bs if big else vals)]
+        pairs = reg_args([(a, b) for a in vals for b in (bs if big else vals)])
+        velt = reg_args([(a, (False, 0, s)) for a in vals for s in range(1, p + 1)])
+        ldx = reg_args([(a, (n < 0, 0, abs(n))) for a in vals for n in (-7, -3, -1, 0, 1, 2, 5)]
+                       + [(vals[1], (False, -1, 1)), (vals[2], (True, -2, 3))])
         for rm in NEAREST:
             for f in pair_fns_near:
                 add_jobs((kind, p, emin, rm), f, pairs)
@@ -653,11 +749,10 @@ def run(ck):
                 add_jobs((kind, p, emin, rm), f, pairs)
         # veltkamp_split: every value, every split point (valid and invalid)
         for rm in NEAREST:
-            add_jobs((kind, p, emin, rm), 'veltkamp_split', [(a, (False, 0, s)) for a in vals for s in range(1, p + 1)])
+            add_jobs((kind, p, emin, rm), 'veltkamp_split', velt)
         # ldexp: every value, shifts across the format (incl. into the subnormal range)
         for rm in any_modes:
-            add_jobs((kind, p, emin, rm), 'ldexp', [(a, (n < 0, 0, abs(n))) for a in vals for n in (-7, -3, -1, 0, 1, 2, 5)]
-                     + [(vals[1], (False, -1, 1)), (vals[2], (True, -2, 3))])
+            add_jobs((kind, p, emin, rm), 'ldexp', ldx)
     # triples: (kind, p, emin, lowest binade, highest binade, exhaustive?)
     tri_formats = [('mp', 3, None, -1, 1, 1), ('mps', 3, -2, -2, 2, 0), ('mp', 4, None, -2, 2, 0), ('mp', 2, None, -2, 2, 0)]
     if thorough:
@@ -666,58 +761,60 @@ def run(ck):
     for kind, p, emin, lo, hi, full in tri_formats:
         vals = fmt_values(kind, p, emin, lo, hi)
         if full:
-            tr = list(itertools.product(vals, vals, vals))
+            tr = list(itertools.product(vals, vals, vals if thorough else vals[rng.randrange(2)::2]))
         else:
-            n = 40000 if thorough else 4000
+            n = 40000 if thorough else 3000
             tr = [(rng.choice(vals), rng.choice(vals), rng.choice(vals)) for _ in range(n)]
+        tr_id = reg_args(tr)
+        tr3_id = tr_id if thorough or not full else reg_args(tr[::3])
         for rm in NEAREST:
-            add_jobs((kind, p, emin, rm), 'classic_2fma', tr)
-        for rm in (['RNE', 'RTP'] if not thorough else any_modes):
-            add_jobs((kind, p, emin, rm), 'ideal_fma', tr if thorough or not full else tr[::3])
+            add_jobs((kind, p, emin, rm), 'classic_2fma', tr_id)
+        for rm in (['RNE', 'RTP'] if not thorough else any_modes[:4]):
+            add_jobs((kind, p, emin, rm), 'ideal_fma', tr3_id)
 
-    ck.log(f'{sum(len(j[2]) for j in jobs)} library calls in {len(jobs)} jobs')
+    total = sum(j[4] - j[3] for j in jobs)
+    ck.log(f'{total} library calls in {len(jobs)} jobs')
+    coq_budget = 300000 if thorough else 9000
+    stride = max(1, -(-total // coq_budget))
+    base, jobs2 = 0, []
+    for desc, fname, sid, lo_i, hi_i in jobs:
+        jobs2.append((desc, fname, sid, lo_i, hi_i, base, stride))
+        base += hi_i - lo_i
     nproc = max(1, min(14, (os.cpu_count() or 2) - 2))
     ctxm = multiprocessing.get_context('fork')
-    with ctxm.Pool(nproc, initializer=_winit) as pool:
-        results = pool.map(_work, jobs, chunksize=1)
-    ck.log('implementation runs done')
-
     terms, meta = [], []
     fails = {}
-    coq_budget = 300000 if thorough else 20000
-    total = sum(len(j[2]) for j in jobs)
-    stride = max(1, -(-total // coq_budget))
-    idx = 0
-    extra = {}
-    for (desc, fname, _), res in zip(jobs, results):
-        for args, out, verdict in res:
-            idx += 1
-            ck.evaluations += 1
-            ck.count(f'{fname}:{verdict if verdict in ("ok", "na") else "FAIL"}')
-            ck.count(f'ctx:{desc[0]}{desc[1]}:{desc[3]}')
-            if verdict == 'ok' and out[0] == 'ok' and any(v[2] for v in out[1][1:]):
-                ck.nontriv((fname, desc, args))      # a non-zero error term that the property constrains
-            if verdict not in ('ok', 'na'):
-                k = key_for(fname, out, verdict)
-                fails.setdefault((fname, k), []).append((desc, args, out, verdict))
-            t = out_term(out)
-            if t is None:
+    with ctxm.Pool(nproc, initializer=_winit) as pool:
+        for (desc, fname, *_), r in zip(jobs2, pool.imap(_work, jobs2, chunksize=1)):
+            ck.evaluations += r['n']
+            for vc, n in r['counts'].items():
+                ck.count(f'{fname}:{vc}', n)
+            ck.count(f'ctx:{desc[0]}{desc[1]}:{desc[3]}', r['n'])
+            ck.nontrivial.update(r['nontriv'])
+            for ocls, (n, ex) in r['fails'].items():
+                f = fails.setdefault((fname, ocls), [0, []])
+                f[0] += n
+                if len(f[1]) < 5:
+                    f[1] += [(desc,) + e for e in ex]
+            for args, out in r['nar']:
                 ck.violation(f'{fname} returned a non-finite value on finite operands of an unbounded-exponent format',
                              {'ctx': desc, 'args': [str(frac(a)) for a in args], 'got': out})
-                continue
-            # Coq comparison: a deterministic stride over all cases, plus the first
-            # 150 cases of every (function, verdict class, outcome class)
-            cls = (fname, verdict if verdict in ('ok', 'na') else 'FAIL', out[0])
-            extra[cls] = extra.get(cls, 0) + 1
-            if have_lib and (idx % stride == 0 or extra[cls] <= 150):
-                a = '; '.join(rf_term(*x) for x in args)
-                terms.append(f'(KEft {fc_term(desc)} "{fname}" [{a}], {t})')
-                meta.append((desc, fname, args, out))
-    for (fname, k), lst in sorted(fails.items(), key=lambda kv: str(kv[0])):
-        for desc, args, out, verdict in lst[:(3 if k is None else 10 ** 9)]:
-            ck.violation(f'property C20 violated by the implementation: {verdict}' if k is None else verdict,
+            if have_lib:
+                for t, args, out in r['terms']:
+                    terms.append(t)
+                    meta.append((desc, fname, args, out))
+    ck.log('implementation runs done')
+    for (fname, ocls), (n, ex) in sorted(fails.items(), key=lambda kv: str(kv[0])):
+        desc, args, out, verdict = ex[0]
+        k = key_for(fname, out, verdict)
+        if k is not None and k in ck.known:
+            for _ in range(n):
+                ck.violation(verdict, {}, key=k)
+            continue
+        for desc, args, out, verdict in ex[:3]:
+            ck.violation(f'property C20 violated by the implementation: {verdict}',
                          {'function': fname, 'ctx': desc, 'args': [str(frac(a)) for a in args],
-                          'args_encoded': args, 'got': out, 'total_failing_inputs_of_this_kind': len(lst)}, key=k)
+                          'args_encoded': args, 'got': out, 'total_failing_inputs_of_this_kind': n}, key=k)
 
     # ---------------- decompositions (Python primitives): all small values incl. specials
     variant = None
@@ -753,7 +850,7 @@ def run(ck):
         allmeta = meta + dmeta
         for i in bad:
             m = allmeta[i]
-            ck.violation('fpy2 and the Coq model of the regenerated library disagree on ' + str(m[1]),
+            report(ck, 'fpy2 and the Coq model of the regenerated library disagree on ' + str(m[1]),
                          {'case': allc[i], 'ctx': m[0], 'note': 'first component: call; second: what fpy2 returned'},
                          key=None)
     else:
@@ -834,13 +931,13 @@ def decomposition_cases(ck, thorough, variant):
                     else:
                         bad = not (hi.isinf and lo.isinf and hi.s == x.s and lo.s == x.s)
                     if bad:
-                        ck.violation('core.split does not recombine to its operand', {'ctx': desc, 'x': repr(x), 'n': n, 'got': repr(o)})
+                        report(ck, 'core.split does not recombine to its operand', {'ctx': desc, 'x': repr(x), 'n': n, 'got': repr(o)})
             o = outc(lambda: core.split(x, Float(s=False, exp=-1, c=1), ctx=ctx))
             ck.evaluations += 1
             terms.append(f'(KSplit {fct} {tx} (FFin {rf_term(False, -1, 1)}), {o_term(o)})')
             meta.append((desc, 'core.split', x, o))
             if not (o[0] == 'err' and o[2] == 'ValueError'):
-                ck.violation('core.split accepted a non-integer digit position', {'ctx': desc, 'x': repr(x), 'got': repr(o)})
+                report(ck, 'core.split accepted a non-integer digit position', {'ctx': desc, 'x': repr(x), 'got': repr(o)})
             # ---- modf
             o = outc(lambda: core.modf(x, ctx=ctx))
             ck.evaluations += 1
@@ -859,7 +956,7 @@ def decomposition_cases(ck, thorough, variant):
                 else:
                     bad = not (f.isinf and f.s == x.s and not (i.isnan or i.isinf) and i.c == 0 and i.s == x.s)
                 if bad:
-                    ck.violation('core.modf does not recombine to its operand', {'ctx': desc, 'x': repr(x), 'got': repr(o)})
+                    report(ck, 'core.modf does not recombine to its operand', {'ctx': desc, 'x': repr(x), 'got': repr(o)})
             # ---- frexp: operand without a context, and the same operand carrying `ctx`
             for with_ctx in (False, True):
                 if with_ctx:
@@ -888,7 +985,7 @@ def decomposition_cases(ck, thorough, variant):
                         else:
                             if variant[0] and not with_ctx and o[2] == 'ValueError':
                                 key = 'frexp_no_ctx'
-                            ck.violation('core.frexp raises ValueError for a finite operand that carries no context (x.normalize())'
+                            report(ck, 'core.frexp raises ValueError for a finite operand that carries no context (x.normalize())'
                                          if key else 'core.frexp raised on a finite operand whose mantissa and exponent are representable',
                                          {'ctx': desc, 'x': repr(x), 'operand_has_ctx': with_ctx, 'got': repr(o)}, key=key)
                     else:
@@ -896,12 +993,12 @@ def decomposition_cases(ck, thorough, variant):
                         good_m = not (m.isnan or m.isinf) and 1 <= abs(val(m)) < 2 and m.s == x.s
                         ev = None if (e.isnan or e.isinf) else val(e)
                         if not good_m or ev is None:
-                            ck.violation('core.frexp: malformed mantissa/exponent', {'ctx': desc, 'x': repr(x), 'got': repr(o)})
+                            report(ck, 'core.frexp: malformed mantissa/exponent', {'ctx': desc, 'x': repr(x), 'got': repr(o)})
                         elif ev.denominator != 1 or val(m) * Fraction(2) ** int(ev) != val(x):
                             # exactly the class: the true exponent is not representable in ctx and was rounded silently
                             inexact = (not variant[1]) and val(m) * Fraction(2) ** te == val(x) and ev != te
                             key = 'frexp_exponent_rounded' if inexact else None
-                            ck.violation('core.frexp rounds the exponent inexactly (no exact=True): m * 2**e != x' if key
+                            report(ck, 'core.frexp rounds the exponent inexactly (no exact=True): m * 2**e != x' if key
                                          else 'core.frexp does not recombine to its operand',
                                          {'ctx': desc, 'x': repr(x), 'operand_has_ctx': with_ctx, 'got': repr(o)}, key=key)
                 elif o[0] == 'ok':
@@ -913,9 +1010,9 @@ def decomposition_cases(ck, thorough, variant):
                     else:
                         bad = not (not (m.isnan or m.isinf) and m.c == 0 and m.s == x.s and not (e.isnan or e.isinf) and e.c == 0)
                     if bad:
-                        ck.violation('core.frexp: wrong answer for a special operand', {'ctx': desc, 'x': repr(x), 'got': repr(o)})
+                        report(ck, 'core.frexp: wrong answer for a special operand', {'ctx': desc, 'x': repr(x), 'got': repr(o)})
                 else:
-                    ck.violation('core.frexp raised on a special operand', {'ctx': desc, 'x': repr(x), 'got': repr(o)})
+                    report(ck, 'core.frexp raised on a special operand', {'ctx': desc, 'x': repr(x), 'got': repr(o)})
                 terms.append(f'(KFrexp {fv} {fct} {xctx if with_ctx else "None"} {tx2}, {o_term(o)})')
                 meta.append((desc, 'core.frexp', x, o, key))
     return terms, meta
